@@ -106,3 +106,12 @@ CHECKS["C19"] = dict(
     level_text="Stateful model-based testing of link tracking through the real assembler; 20k sequences per quick run.",
     level_note="Trusts the 50-line model; internal emptiness is observed through one add-only verif-tagged accessor.",
     technique="rapid stateful model-based testing", design_ref="DESIGN.md §5 C19")
+
+CHECKS["C01"] = dict(
+    pkg="props/c01", level="exploration", gomaxprocs=1,
+    rule="one real requestor (store = generated genuine subset of a generated true DAG, TrustedStorage on or off) against a scripted responder that plays the honest transcript of the full traversal, chunked into messages of 1-4 entries, after 0-8 generated mutations: swap / drop / duplicate metadata entries, relink an entry to another CID of the DAG, of an unrelated generated DAG or of nothing, flip the action among all four, omit or move a block, right prefix with wrong bytes, wrong prefix (codec / hash function / identity) with right bytes, attach unrequested or foreign blocks, replay a message, change a message's status to any of 7, merge messages. Everything is encoded and decoded through message/v2. Oracle: every delivered ResponseProgress is (path, node, last-block) of the true DAG's full traversal; every committed write is a selector-reachable CID; every stored block's bytes equal the DAG's and hash to their CID; store after is a subset of before U reachable. Non-trivial: >= 1 mutation took effect, the request went remote, and the requestor consumed remote items (a write happened or verification rejected something).",
+    assumptions=_SIM_ASSUME + ["only map-backed link systems (trusted and untrusted) are covered"],
+    quick=dict(shards=2, timeout=400), thorough=dict(shards=16, timeout=3000),
+    level_text="Random adversarial transcripts derived from honest ones by structured mutation, judged by membership in the true traversal; no completeness or order is asserted (that is C02).",
+    level_note="Trusts the reference full traversal and sha2-256.",
+    technique="rapid property-based testing with mutation-based adversarial transcripts", design_ref="DESIGN.md §4 C01")
